@@ -23,6 +23,9 @@ import (
 // fresh compilation gives for that entry; Kind "history-kept": the string the
 // first evaluation returned must still read the same after the others (see
 // history.go).
+// Kind "delivery": a table delivered to {load} through a named pipe in pieces;
+// Kind "load-history": a sequence of compilations of {load} of failing and
+// readable files in one process (see delivery.go).
 type Case struct {
 	Kind     string     `json:"kind,omitempty"` // "" (one tuple), "size", "history", "history-kept"
 	Fn       string     `json:"fn"`
@@ -36,6 +39,7 @@ type Case struct {
 	N        int        `json:"n,omitempty"`
 	Style    string     `json:"style,omitempty"`
 	History  [][]string `json:"history,omitempty"`
+	Deliv    *delivCase `json:"delivery,omitempty"` // Kind "delivery" / "load-history" (see delivery.go)
 }
 
 // encConst writes s as one template constant. The text of an argument is
